@@ -641,7 +641,10 @@ def write_evidence(pid, tier, seed, spec, obs, results, wall, nviol, known_hits,
               wall_s=round(wall, 2), violations=nviol)
     os.makedirs(os.path.join(VERIF, 'evidence'), exist_ok=True)
     # a run restricted with --only is a debugging aid: it must not replace the evidence of the full check
-    with open(os.path.join(VERIF, 'work' if partial else 'evidence', pid + ('.partial.json' if partial else '.json')), 'w') as f:
+    # so is a run with VERIF_WORK set (a scratch run against a copy of the repo, e.g. a seeded change): its evidence stays in that directory
+    scratch = bool(os.environ.get('VERIF_WORK'))
+    dest = os.path.join(WORK, pid + '.scratch.json') if scratch else os.path.join(VERIF, 'work' if partial else 'evidence', pid + ('.partial.json' if partial else '.json'))
+    with open(dest, 'w') as f:
         json.dump(ev, f, indent=1)
 
 
